@@ -273,7 +273,8 @@ class ABNF:
         s = ABNF.mask(mask_key, self.data)
 
         if isinstance(mask_key, str):
-            mask_key = mask_key.encode("utf-8")
+            # the same four bytes mask() has just used (one character = one byte)
+            mask_key = mask_key.encode("latin-1")
 
         return mask_key + s
 
